@@ -47,7 +47,12 @@ CONSTANTS
   HookUniverse, \* finalize hooks a behaviour may register: [id, rets, raises]
   BindApis,     \* binding API paths explored: "tuple", "string", "text", "block"
   FreshConfs,   \* descriptors that Register may add during a behaviour
+  BindFilter(_, _), \* which values a behaviour may bind to which configurable (keeps reference graphs acyclic)
+  ConstVals,    \* values of constants
+  QuerySpellings, \* spellings used by Query
   ConstNames,   \* names DefineConstant may use (sequences of components)
+  CallMaxExtra, \* how many surplus positionals Call explores (0 or 1)
+  CallExtraKw,  \* names outside the signature that Call passes by keyword
   CallsWithReq, \* whether Call explores gin.REQUIRED markers passed by the caller
   DevKwEval     \* TRUE models the pre-fix behaviour F6 (keyword-overridden refs evaluated)
 
@@ -172,6 +177,9 @@ ConfigurableDefaults(c) ==
 SigRequired(c) == SelectSeq(KwargDefaultsOrder(c), LAMBDA p : HasDefault(c, p) /\ IsReq(DefaultOf(c, p)))
 
 ------------------------------------------------------------------------------
+RECURSIVE JoinDots(_)
+JoinDots(comps) == IF Len(comps) = 1 THEN comps[1] ELSE comps[1] \o "." \o JoinDots(Tail(comps))
+
 (* The state threaded through a (possibly nested) wrapper call *)
 MkS(ok, op, sg, ev) == [okeys |-> ok, oper |-> op, singles |-> sg, evals |-> ev]
 
@@ -249,15 +257,28 @@ CallW(cf, S, c, scope, call) ==
       rec   == [sel |-> c.sel, scope |-> scope, delivered |-> deliv, va |-> b.va, kw |-> kwd]
       S3    == [S2 EXCEPT !.evals = Append(@, rec)]
   IN
-  CASE c.body = "record" ->
-         [s |-> S3, status |-> "ok", ret |-> <<"res", c.sel, scope, deliv>>, delivered |-> deliv,
-          va |-> b.va, kw |-> kwd, missing |-> <<>>, ran |-> TRUE]
-    [] c.body = "macro" ->
-         [s |-> S3, status |-> "ok", ret |-> Get(b.delivered, "value"), delivered |-> deliv,
-          va |-> b.va, kw |-> kwd, missing |-> <<>>, ran |-> TRUE]
-    [] OTHER ->
-         [s |-> S3, status |-> "ok", ret |-> <<"none">>, delivered |-> deliv,
-          va |-> b.va, kw |-> kwd, missing |-> <<>>, ran |-> TRUE]
+  LET okret(S4, ret) == [s |-> S4, status |-> "ok", ret |-> ret, delivered |-> deliv, va |-> b.va, kw |-> kwd,
+                         missing |-> <<>>, ran |-> TRUE]
+      bodyfail(S4, st) == [s |-> S4, status |-> st, ret |-> <<"none">>, delivered |-> deliv, va |-> b.va, kw |-> kwd,
+                           missing |-> <<>>, ran |-> TRUE]
+  IN
+  CASE c.body = "record" -> okret(S3, <<"res", c.sel, scope, deliv>>)
+    [] c.body = "macro" -> okret(S3, Get(b.delivered, "value"))                       \* macro(value) (2740-2743)
+    [] c.body = "const" ->                                                              \* _retrieve_constant (2746-2749)
+         LET hit == { k \in consts : <<JoinDots(k.name)>> = scope } IN
+         IF scope = <<"gin.REQUIRED">> THEN okret(S3, Req)
+         ELSE IF hit = {} THEN bodyfail(S3, "KeyError")
+         ELSE okret(S3, (CHOOSE k \in hit : TRUE).val)
+    [] c.body = "singleton" ->                                                          \* singleton_value (2757-2766)
+         LET ctor == Get(b.delivered, "constructor")
+             have == { x \in S3.singles : x.key = scope }
+         IN IF have # {} THEN okret(S3, (CHOOSE x \in have : TRUE).obj)
+            ELSE IF Tag(ctor) # "fnref" THEN bodyfail(S3, "ValueError")                \* not callable
+            ELSE LET r == CallW(cf, S3, ConfBySel(ctor[2]), IF ctor[3] # <<>> THEN ctor[3] ELSE scope,
+                                [pargs |-> <<>>, kw |-> {}])
+                 IN IF r.status # "ok" THEN bodyfail(r.s, r.status)
+                    ELSE okret([r.s EXCEPT !.singles = @ \cup {[key |-> scope, obj |-> r.ret]}], r.ret)
+    [] OTHER -> okret(S3, <<"none">>)
 
 (* copy.deepcopy over a value (ConfigurableReference.__deepcopy__, 773-794) *)
 EvalVal(cf, S, v, amb) ==
@@ -315,7 +336,7 @@ CallSpace(c, maxExtra, withReq, extraKwNames) ==
              : n \in 0..(Len(c.pos) + maxExtra) }
 
 \* every call any descriptor of the universe may receive (a constant: evaluated once)
-AllCalls == UNION { CallSpace(c, 1, CallsWithReq, {"z"}) : c \in Confs }
+AllCalls == UNION { CallSpace(c, CallMaxExtra, CallsWithReq, CallExtraKw) : c \in Confs }
 
 ParamNames == ToSet(NameOrder)
 \* names a behaviour tries to bind: the signature's own, one foreign name, and (for
@@ -324,6 +345,44 @@ BindNames(c) == NamedParams(c) \cup {"z"}
 
 
 ------------------------------------------------------------------------------
+(* names: resolution of a spelling against the registry.  SelectorMap.tla shows that the
+   suffix tree implements exactly this (C08_Matching); here it is used declaratively. *)
+SuffixOf(q, n) == Len(q) <= Len(n) /\ SubSeq(n, Len(n) - Len(q) + 1, Len(n)) = q
+MatchSet(K, q) == IF q \in K THEN {q} ELSE { n \in K : SuffixOf(q, n) }
+RegSels == { c.sel : c \in reg }
+\* <<"one", descriptor>> | <<"none">> | <<"ambiguous">>
+ResolveConf(sp) ==
+  LET m == MatchSet(RegSels, sp) IN
+  IF m = {} THEN <<"none">>
+  ELSE IF Cardinality(m) > 1 THEN <<"ambiguous">>
+  ELSE <<"one", CHOOSE c \in reg : c.sel \in m>>
+
+(* values reachable inside a value: _iterate_flattened_values (2695-2709) *)
+RECURSIVE Flatten(_)
+Flatten(v) ==
+  CASE Tag(v) \in {"list", "tuple"} -> {v} \cup UNION { Flatten(v[2][i]) : i \in 1..Len(v[2]) }
+    [] Tag(v) = "dict" -> {v} \cup UNION { Flatten(v[2][i][2]) : i \in 1..Len(v[2]) }
+    [] OTHER -> {v}
+AllValues(cf) == UNION { Flatten(cf[i].val) : i \in 1..Len(cf) }
+
+GinMacroSel == <<"gin", "macro">>
+GinConstSel == <<"gin", "constant">>
+
+
+(* constants and %name *)
+ReqName == <<"gin", "REQUIRED">>
+ConstNameSet == { k.name : k \in consts } \cup {ReqName}
+
+\* ParserDelegate.macro (861-869): %name is resolved when the text is parsed
+\* <<"pct", comps>>: comps are the dot-components of the name (a scope-free name)
+ResolvePct(v) ==
+  IF Tag(v) # "pct" THEN <<"ok", v>>
+  ELSE LET m == MatchSet(ConstNameSet, v[2]) IN
+       IF Cardinality(m) = 1 THEN <<"ok", <<"ref", GinConstSel, <<JoinDots(CHOOSE n \in m : TRUE)>>, "call">>>>
+       ELSE IF Cardinality(m) > 1 THEN <<"ValueError", v>>                            \* ambiguous constant
+       ELSE <<"ok", <<"ref", GinMacroSel, <<JoinDots(v[2])>>, "call">>>>
+
+
 (* Actions *)
 SameKey(a, b) == a.scope = b.scope /\ a.sel = b.sel /\ a.param = b.param
 HasKey(cf, scope, sel, p) == \E i \in 1..Len(cf) : cf[i].scope = scope /\ cf[i].sel = sel /\ cf[i].param = p
@@ -343,7 +402,7 @@ Init ==
 \* bind_parameter (1032-1078)
 Bind(api, scope, c, p, v) ==
   /\ "Bind" \in Enabled
-  /\ c \in reg /\ p \in BindNames(c)
+  /\ c \in reg /\ p \in BindNames(c) /\ BindFilter(c, v)
   /\ IF locked
      THEN /\ out' = [op |-> "Bind", api |-> api, scope |-> scope, sel |-> c.sel, param |-> p, val |-> v,
                        status |-> "RuntimeError", why |-> "locked"]
@@ -352,8 +411,12 @@ Bind(api, scope, c, p, v) ==
      THEN /\ out' = [op |-> "Bind", api |-> api, scope |-> scope, sel |-> c.sel, param |-> p, val |-> v,
                        status |-> "ValueError", why |-> BindVerdict(c, p)]
           /\ UNCHANGED cfg
+     ELSE IF ResolvePct(v)[1] # "ok"
+     THEN /\ out' = [op |-> "Bind", api |-> api, scope |-> scope, sel |-> c.sel, param |-> p, val |-> v,
+                       status |-> ResolvePct(v)[1], why |-> "ambiguous-constant"]
+          /\ UNCHANGED cfg
      ELSE /\ HasKey(cfg, scope, c.sel, p) \/ Len(cfg) < MaxBindings
-          /\ cfg' = CfgPut(cfg, [scope |-> scope, sel |-> c.sel, param |-> p, val |-> v])
+          /\ cfg' = CfgPut(cfg, [scope |-> scope, sel |-> c.sel, param |-> p, val |-> ResolvePct(v)[2]])
           /\ out' = [op |-> "Bind", api |-> api, scope |-> scope, sel |-> c.sel, param |-> p, val |-> v,
                        status |-> "ok", why |-> "ok"]
   /\ UNCHANGED <<reg, stack, okeys, oper, locked, usaved, interactive, singles, consts, hooks>>
@@ -387,7 +450,7 @@ ExitScope(byException) ==
 \* a configurable is called from Python
 Call(c, call) ==
   /\ "Call" \in Enabled
-  /\ c \in reg /\ call \in CallSpace(c, 1, CallsWithReq, {"z"})
+  /\ c \in reg /\ call \in CallSpace(c, CallMaxExtra, CallsWithReq, CallExtraKw)
   /\ LET r == CallW(cfg, MkS(okeys, oper, singles, <<>>), c, CurScope, call) IN
      /\ okeys' = r.s.okeys /\ oper' = r.s.oper /\ singles' = r.s.singles
      /\ out' = [op |-> "Call", sel |-> c.sel, pargs |-> call.pargs, ckw |-> call.kw, status |-> r.status, delivered |-> r.delivered, va |-> r.va, kw |-> r.kw,
@@ -403,29 +466,6 @@ Clear(clearConstants) ==
   /\ UNCHANGED <<reg, stack, usaved, interactive, hooks>>
 
 ------------------------------------------------------------------------------
-(* names: resolution of a spelling against the registry.  SelectorMap.tla shows that the
-   suffix tree implements exactly this (C08_Matching); here it is used declaratively. *)
-SuffixOf(q, n) == Len(q) <= Len(n) /\ SubSeq(n, Len(n) - Len(q) + 1, Len(n)) = q
-MatchSet(K, q) == IF q \in K THEN {q} ELSE { n \in K : SuffixOf(q, n) }
-RegSels == { c.sel : c \in reg }
-\* <<"one", descriptor>> | <<"none">> | <<"ambiguous">>
-ResolveConf(sp) ==
-  LET m == MatchSet(RegSels, sp) IN
-  IF m = {} THEN <<"none">>
-  ELSE IF Cardinality(m) > 1 THEN <<"ambiguous">>
-  ELSE <<"one", CHOOSE c \in reg : c.sel \in m>>
-
-(* values reachable inside a value: _iterate_flattened_values (2695-2709) *)
-RECURSIVE Flatten(_)
-Flatten(v) ==
-  CASE Tag(v) \in {"list", "tuple"} -> {v} \cup UNION { Flatten(v[2][i]) : i \in 1..Len(v[2]) }
-    [] Tag(v) = "dict" -> {v} \cup UNION { Flatten(v[2][i][2]) : i \in 1..Len(v[2]) }
-    [] OTHER -> {v}
-AllValues(cf) == UNION { Flatten(cf[i].val) : i \in 1..Len(cf) }
-
-GinMacroSel == <<"gin", "macro">>
-GinConstSel == <<"gin", "constant">>
-
 \* the three built-in hooks (2847-2883), evaluated on the configuration as parsed
 BuiltinHookVerdict(cf) ==
   LET vals == AllValues(cf)
@@ -537,6 +577,28 @@ Query(scope, sp, p) ==
   /\ UNCHANGED <<reg, cfg, stack, okeys, oper, locked, usaved, interactive, singles, consts, hooks>>
 
 
+------------------------------------------------------------------------------
+\* constant (2769-2810)
+DefineConstant(name, v, valid) ==
+  /\ "DefineConstant" \in Enabled
+  /\ name \in ConstNames
+  /\ IF ~valid
+     THEN /\ out' = [op |-> "DefineConstant", name |-> name, val |-> v, valid |-> valid, status |-> "ValueError"]
+          /\ UNCHANGED consts
+     ELSE IF ~interactive /\ MatchSet(ConstNameSet, name) # {}
+     THEN /\ out' = [op |-> "DefineConstant", name |-> name, val |-> v, valid |-> valid, status |-> "ValueError"]
+          /\ UNCHANGED consts
+     ELSE /\ consts' = { k \in consts : k.name # name } \cup {[name |-> name, val |-> v]}
+          /\ out' = [op |-> "DefineConstant", name |-> name, val |-> v, valid |-> valid, status |-> "ok"]
+  /\ UNCHANGED <<reg, cfg, stack, okeys, oper, locked, usaved, interactive, singles, hooks>>
+
+SetInteractive(on) ==
+  /\ "Interactive" \in Enabled
+  /\ interactive' = on
+  /\ out' = [op |-> "SetInteractive", on |-> on, status |-> "ok"]
+  /\ UNCHANGED <<reg, cfg, stack, okeys, oper, locked, usaved, singles, consts, hooks>>
+
+
 Next ==
   \/ \E api \in BindApis, sc \in ScopePaths, c \in Confs, p \in ParamNames, v \in BindVals : Bind(api, sc, c, p, v)
   \/ \E how \in {"name", "list", "clear", "invalid"}, comps \in ScopePaths : EnterScope(how, comps)
@@ -548,6 +610,9 @@ Next ==
   \/ UnlockEnter
   \/ \E e \in BOOLEAN : UnlockExit(e)
   \/ \E c \in FreshConfs : Register(c)
+  \/ \E n \in ConstNames, v \in ConstVals, ok \in BOOLEAN : DefineConstant(n, v, ok)
+  \/ \E on \in BOOLEAN : SetInteractive(on)
+  \/ \E sc \in ScopePaths, sp \in QuerySpellings, p \in ParamNames : Query(sc, sp, p)
 
 Spec == Init /\ [][Next]_vars
 
@@ -555,6 +620,9 @@ Spec == Init /\ [][Next]_vars
 ViewUnordered == <<reg, ToSet(cfg), stack, okeys, oper, locked, usaved, interactive, singles, consts, hooks, out>>
 \* for invariants that quantify over all calls in a state: only the store and the active scope matter
 ViewStore == <<reg, ToSet(cfg), CurScope>>
+ViewStoreOrdered == <<reg, cfg, CurScope>>
+\* scenario export: the last action's record is part of the view only through what it changed
+ViewUnorderedNoOut == <<reg, cfg, stack, locked, usaved, interactive, consts, hooks, out.op>>
 
 ------------------------------------------------------------------------------
 (* Declarative properties.  They never mention overlays, dict updates or the
@@ -744,5 +812,45 @@ C09_Restore ==
   [][/\ (out'.op = "EnterScope" /\ out'.status # "ok") => stack' = stack
      /\ (out'.op = "ExitScope") => (stack' = SubSeq(stack, 1, Len(stack) - 1))
      /\ (out'.op \notin {"EnterScope", "ExitScope"}) => stack' = stack]_vars
+
+------------------------------------------------------------------------------
+(* C04: references *)
+RECURSIVE RefOccs(_)
+\* evaluated references inside a value, with multiplicity, in the order a deep copy meets them
+RefOccs(v) ==
+  CASE Tag(v) = "ref" -> IF v[4] = "call" THEN <<v>> ELSE <<>>
+    [] Tag(v) \in {"list", "tuple"} -> FlattenSeq([i \in 1..Len(v[2]) |-> RefOccs(v[2][i])])
+    [] Tag(v) = "dict" -> FlattenSeq([i \in 1..Len(v[2]) |-> RefOccs(v[2][i][2])])
+    [] OTHER -> <<>>
+
+\* who must be invoked, under which scope, when `c` is called under `scope` with the caller
+\* supplying `supplied`: one entry per occurrence of an evaluated reference in a Gin-supplied
+\* parameter (recursively through the producers' own bindings), then c itself
+RECURSIVE ExpEvals(_, _, _, _)
+ExpEvals(cf, c, scope, supplied) ==
+  LET kw == ODelAll(Overlay(cf, c.sel, scope), supplied)
+      perParam == [i \in 1..Len(kw) |->
+                     LET occ == RefOccs(kw[i][2]) IN
+                     FlattenSeq([j \in 1..Len(occ) |->
+                        ExpEvals(cf, ConfBySel(occ[j][2]), IF occ[j][3] # <<>> THEN occ[j][3] ELSE scope, {})])]
+  IN FlattenSeq(perParam) \o << <<c.sel, scope>> >>
+
+SuppliedNames(c, call) ==
+  LET args == IF c.kind \in {"cls", "meth"} THEN <<Self>> \o call.pargs ELSE call.pargs
+      sa   == SigArgs(c)
+  IN { sa[i] : i \in 1..(IF Len(args) <= Len(sa) THEN Len(args) ELSE Len(sa)) } \cup Dom(call.kw)
+
+C04_HoldsFor(c, call) ==
+  LET r == CallW(cfg, MkS({}, {}, {}, <<>>), c, CurScope, call) IN
+  r.status = "ok" =>
+    /\ [i \in 1..Len(r.s.evals) |-> <<r.s.evals[i].sel, r.s.evals[i].scope>>]
+         = ExpEvals(cfg, c, CurScope, SuppliedNames(c, call))                 \* count and scope
+    /\ \A e \in r.delivered :                                                  \* bare references
+         LET app == Applicable(cfg, c.sel, e[1], CurScope) IN
+         (e[1] \notin SuppliedNames(c, call) /\ app # {} /\ Tag(Longest(app).val) = "ref"
+            /\ Longest(app).val[4] = "bare")
+           => e[2] = <<"fnref", Longest(app).val[2], Longest(app).val[3]>>
+
+C04_Refs == \A c \in reg : c.body = "record" => \A call \in CallSpace(c, 0, FALSE, {}) : C04_HoldsFor(c, call)
 
 =============================================================================
